@@ -103,6 +103,7 @@ class Session(BusSession):
                 for st in ('0', '1', 'S'):
                     ops.append(['exit', i, st])
         ops.append(['takeother'])
+        ops.append(['reload'])           # the same configuration is read again (SIGHUP / ReloadConfig): nothing observable may change
         if self.pending:
             ops.append(['advance', TIMEOUT + 1000])
         return ops
@@ -282,6 +283,10 @@ class Session(BusSession):
                 self.hit('name-taken')
         elif kind == 'takeother':
             self.method('T', 'RequestName', [R.S(b'com.example.Other'), R.U(4)])
+            self.settle()
+        elif kind == 'reload':
+            self.bus.reload(self.bus.config)
+            self.hit('reload-with-pending' if self.pending else 'reload-idle')
             self.settle()
         elif kind == 'exit':
             name = (S1, S2)[op[1]]
